@@ -9,6 +9,7 @@ import (
 	"crypto/ecdsa"
 	"crypto/rand"
 	"crypto/rsa"
+	"encoding/json"
 	"errors"
 	"fmt"
 	"time"
@@ -163,7 +164,14 @@ func (p *signPlugin) GenerateEnvelope(ctx context.Context, req *pf.GenerateEnvel
 	if req.ExpiryDurationInSeconds > 0 {
 		spec.Expiry = now.Add(time.Duration(req.ExpiryDurationInSeconds) * time.Second)
 	}
-	env := SignEnvelope(spec)
+	var env []byte
+	if format == "jws" && !json.Valid(payload) {
+		// a payload that is not one JSON value: signed by hand around the honest envelope
+		spec.Payload = req.Payload
+		env = ResignJWS(SignEnvelope(spec), payload, p.chain.LeafKey())
+	} else {
+		env = SignEnvelope(spec)
+	}
 	if p.d("corruptedSignature") {
 		env = FlipSignature(format, env, 5)
 	}
